@@ -7,7 +7,21 @@ for f in sorted(glob.glob("/verif/seeded/*/meta.json")):
     name = os.path.basename(os.path.dirname(f))
     def c(s, n):
         return " ".join(str(s).replace("|", "\\|").split())[:n]
-    rows.append("| %s | %s | %s | %s | %s |" % (name, m.get("property"), c(m.get("what", ""), 260), c(m.get("needs_to_manifest", ""), 220), c(m.get("check_result") or m.get("detected_by", ""), 260)))
-print("| seeded change | property | what was changed | what it needs to manifest | result of the checks |")
-print("|---|---|---|---|---|")
+    cc = m.get("confirmed_by_coordinator") or {}
+    sr = cc.get("suite_rerun")
+    if isinstance(sr, dict):
+        suite = ("green" if sr.get("green") else "NOT green: %s" % ", ".join(sr.get("stable_not_passing") or ["?"])) + " (re-run)"
+    elif isinstance(sr, str):
+        suite = "not re-run: patch no longer applies to HEAD"
+    elif cc.get("suite_summary") or "suite_green_with_change" in cc:
+        suite = "green" if cc.get("suite_green_with_change") else "see meta.json"
+    else:
+        suite = "-"
+    note = m.get("note") or ""
+    res = m.get("check_result") or m.get("detected_by", "")
+    if res in ("yes", "no") and note:
+        res = note
+    rows.append("| %s | %s | %s | %s | %s | %s |" % (name, m.get("property"), c(m.get("what", ""), 260), c(m.get("needs_to_manifest", ""), 220), c(res, 260), c(suite, 120)))
+print("| seeded change | property | what was changed | what it needs to manifest | result of the checks | repository suite with the change |")
+print("|---|---|---|---|---|---|")
 print("\n".join(rows))
